@@ -28,13 +28,77 @@ ASSUMPTIONS = [
     "suspension points are the gates placed in async dependencies, the task body and the result backend",
 ]
 TRUSTED = ["taskiq_dependencies 1.5.7 (executed)", "CPython asyncio (real, virtual clock)", "vt.sym explorer"]
-BOUNDS = {"concurrent executions": 2, "dependency shapes": 6, "suspension points per execution": "<= 4"}
-REQUIRED_COVERS = ["interleaved_in_resolution", "nocache", "nested", "generator", "cached"]
+BOUNDS = {"concurrent executions": "2 (direct callbacks), 3 messages through Receiver.listen with max_async_tasks 1 and 2", "dependency shapes": 6, "suspension points per execution": "<= 4"}
+REQUIRED_COVERS = ["interleaved_in_resolution", "nocache", "nested", "generator", "cached", "via_listen"]
 SHAPES = ("cached", "nocache_after_wait", "nested_nocache", "generator_nocache", "sync_nocache", "ctx_param_only")
 
 
-def cases(tier: str) -> List[Any]:
-    return [{"shape": s} for s in SHAPES]
+def cases(tier: str, hname: str) -> List[Any]:
+    if hname == "direct":
+        return [{"shape": s} for s in SHAPES]
+    return [{"shape": s, "A": a} for s in ("nocache_after_wait", "nested_nocache") for a in (2, 1)]
+
+
+def via_listen(c: sym.Ctx, case: Dict[str, Any]) -> None:
+    """the same isolation obligations when the three messages go through the real Receiver.listen with a concurrency limit"""
+    from taskiq import Context, TaskiqDepends
+    from taskiq.receiver import Receiver
+
+    lab = Lab(c)
+    lab.no_arrival_gates = True  # type: ignore[attr-defined]
+    gate_no = {"n": 0}
+
+    async def wait(tag: str) -> None:
+        gate_no["n"] += 1
+        await lab.gate(f"{tag}:{gate_no['n']}")
+
+    def read(ctx: Context = TaskiqDepends()) -> str:
+        return ctx.message.task_id
+
+    async def slow() -> str:
+        await wait("dep")
+        return "slow"
+
+    def nested(inner: str = TaskiqDepends(read, use_cache=False)) -> str:
+        return inner
+
+    dep = read if case["shape"] == "nocache_after_wait" else nested
+
+    async def task(i: int, s: str = TaskiqDepends(slow), rid: str = TaskiqDepends(dep, use_cache=False), ctx: Context = TaskiqDepends()) -> Any:
+        await wait("body")
+        return (i, rid, ctx.message.task_id, dict(ctx.message.labels), list(ctx.message.args))
+
+    try:
+        broker = make_broker(lab)
+        broker.register_task(task, task_name="t")
+        n = 3
+        broker.script = [ackable(lab, i, encode(broker, "t", f"id{i}", [i], {"who": f"L{i}"}), False) for i in range(n)]
+        recv = Receiver(broker, executor=InlineExecutor(), run_startup=False, max_async_tasks=case["A"], max_prefetch=1)
+        finish = asyncio.Event()
+        main = lab.loop.create_task(recv.listen(finish))
+        for _ in range(200):
+            lab.loop.settle()
+            if main.done():
+                break
+            stored_n = sum(1 for e in lab.ev if e[:2] == ("set_result", "begin"))
+            opts = sorted(g for g, f in lab.gates.items() if not f.done() and g != "stream")
+            if stored_n < n and opts:
+                pick = c.choose(opts, "sched")
+                lab.gates.pop(pick).set_result(None)
+                continue
+            if not finish.is_set():
+                finish.set()
+                continue
+            if lab.loop.next_timer() is not None:
+                lab.loop.tick()
+                continue
+            break
+        done = main.done()
+    finally:
+        lab.close()
+    c.cover("via_listen")
+    c.check(done, "listen_completes")
+    check_results(c, lab, 3, case["shape"])
 
 
 def harness(c: sym.Ctx, case: Dict[str, Any]) -> None:
@@ -123,9 +187,13 @@ def harness(c: sym.Ctx, case: Dict[str, Any]) -> None:
     order = [e[0] for e in lab.ev if e[0] in ("slow_done",)]
     if len(order) == 2 and lab.index("slow_done") < lab.index("set_result", "begin"):
         c.cover("interleaved_in_resolution")
+    check_results(c, lab, 2, shape)
+
+
+def check_results(c: sym.Ctx, lab: Any, n: int, shape: str) -> None:
     stored = {e[2]: e[3] for e in lab.ev if e[:2] == ("set_result", "begin")}
-    c.check(sorted(stored) == ["id0", "id1"], "one_result_per_task_id", stored=sorted(stored))
-    for i in range(2):
+    c.check(sorted(stored) == [f"id{i}" for i in range(n)], "one_result_per_task_id", stored=sorted(stored))
+    for i in range(n):
         res = stored.get(f"id{i}")
         if res is None:
             continue
@@ -137,3 +205,6 @@ def harness(c: sym.Ctx, case: Dict[str, Any]) -> None:
         c.check(cid == f"id{i}" and labels == {"who": f"L{i}"}, "task_function_sees_its_own_context", msg=i, ctx_task_id=cid, labels=labels)
         c.check(rid == f"id{i}", "dependency_sees_the_context_of_its_own_message", msg=i, dep_saw=rid, shape=shape)
         c.check(res.labels == {"who": f"L{i}"}, "result_carries_own_labels", msg=i, labels=res.labels)
+
+
+HARNESSES = {"direct": harness, "listen": via_listen}
